@@ -255,6 +255,25 @@ type walker struct {
 	params   map[string]bool
 	inDefer  bool
 	paramIdx map[types.Object]int
+	base     heldSet         // locks held when the body being walked was entered (a literal run in place)
+	deferred map[string]bool // class|inst|mode of locks whose release has been deferred in this body
+	deferAll bool            // a deferred call releases the caller's lock (unlockAndNotify)
+}
+
+// leakedAt: locks taken in the body being walked that are still held, with no deferred release,
+// at a point where the body returns
+func (w *walker) leakedAt(held heldSet) []string {
+	var out []string
+	if w.deferAll {
+		return nil
+	}
+	for _, l := range held {
+		if isNeg(l) || w.base.has(l) || w.deferred[l.Class+"|"+l.Inst+"|"+l.Mode] {
+			continue
+		}
+		out = append(out, l.Class)
+	}
+	return out
 }
 
 var releasers = map[string]bool{}
@@ -729,7 +748,10 @@ var litCounter = map[string]int{}
 // otherwise it is a separate entry point that starts with no lock held.
 func walkLiteral(w *walker, fl *ast.FuncLit, held heldSet, mode string) {
 	if mode == "sync" || mode == "iife" {
+		sb, sd, sa := w.base, w.deferred, w.deferAll
+		w.base, w.deferred, w.deferAll = held.clone(), nil, false
 		end, term := w.block(fl.Body.List, held.clone())
+		w.base, w.deferred, w.deferAll = sb, sd, sa
 		_ = term
 		if !sameHeld(end, held) && !term {
 			problem("%s: function literal at line %d changes the held lock set", w.fn.Name, fset.Position(fl.Pos()).Line)
@@ -862,6 +884,9 @@ func (w *walker) stmt(s ast.Stmt, held heldSet) (heldSet, bool) {
 		for _, r := range v.Results {
 			w.expr(r, held)
 		}
+		if leaked := w.leakedAt(held); len(leaked) > 0 {
+			problem("%s: returns at line %d still holding %s", w.fn.Name, fset.Position(v.Pos()).Line, strings.Join(leaked, "+"))
+		}
 		return held, true
 	case *ast.BranchStmt:
 		return held, true
@@ -949,8 +974,25 @@ func (w *walker) stmt(s ast.Stmt, held heldSet) (heldSet, bool) {
 			}
 		}
 	case *ast.DeferStmt:
-		if _, _, ok := w.lockCall(v.Call); ok {
+		if op, x, ok := w.lockCall(v.Call); ok {
+			if class, inst, ok2 := w.lockOf(x); ok2 {
+				if w.deferred == nil {
+					w.deferred = map[string]bool{}
+				}
+				mode := "W"
+				if op == "RUnlock" {
+					mode = "R"
+				}
+				w.deferred[class+"|"+inst+"|"+mode] = true
+			}
 			return held, false // released at function exit: held for the rest of the body
+		}
+		if callees, _, _ := w.resolveCallees(v.Call); len(callees) > 0 {
+			for _, c := range callees {
+				if releasers[c] {
+					w.deferAll = true
+				}
+			}
 		}
 		if fl, ok := v.Call.Fun.(*ast.FuncLit); ok {
 			// runs at exit; analysed with the locks held *now* minus nothing (deferred unlocks run later
